@@ -1406,6 +1406,32 @@ def sroa_tuples(b):
     return True
 
 
+def _fill_variant_summaries(F):
+    """cfg.FN_VARIANT: small crate functions every return of which builds the same variant of an enum"""
+    import cfg as _cfg
+    _cfg.FN_VARIANT.clear()
+    everything = dict(F.bodies)
+    everything.update(getattr(F, 'inlined', {}) or {})
+    for p, b in everything.items():
+        if b.kind != 'fn' or len(b.blocks) > 40 or '::tests' in p:
+            continue
+        variants = set()
+        other = False
+        for blk in b.blocks:
+            for st in blk['stmts']:
+                if st['dst']['l'] == 0 and not st['dst']['proj']:
+                    rv = st['rv']
+                    if rv['k'] == 'agg' and rv.get('ak') == 'adt' and 'variant' in rv:
+                        variants.add(rv['variant'])
+                    else:
+                        other = True
+            t = blk['term']
+            if t and t['k'] == 'call' and isinstance(t.get('dst'), dict) and t['dst'].get('l') == 0:
+                other = True
+        if len(variants) == 1 and not other:
+            _cfg.FN_VARIANT[p] = list(variants)[0]
+
+
 def _plain_delegation_target(F, c, sites):
     """`impl TryFrom<u8> for T { fn try_from(..) {..} }` + `fn from_u8(v) -> .. { T::try_from(v) }`: the trait method of a std
     conversion trait (From / TryFrom / FromStr / Default) whose only callers are crate functions of the same type's module"""
@@ -1492,6 +1518,7 @@ def apply(F, log=None):
             unroll_array_loops(F.bodies[p_])
             sroa_tuples(F.bodies[p_])
             thread_jumps(F.bodies[p_])
+    _fill_variant_summaries(F)
     if done:
         # flows / CFGs computed while selecting (semantic anchors) describe the bodies before the splice
         import flow as _flow
